@@ -993,6 +993,15 @@ func (l *lineage) bigGenerationScenario(want int) {
 			l.mutate(c.gid, c.g, "addnode")
 		}
 	}
+	// the grown lineages leave the pool: a crossover of two genomes of a hundred genes and more is a case for the
+	// specification's alignment search that costs TLC minutes, and the random steps that follow would draw them
+	kept := l.pool[:1]
+	for _, m := range l.pool[1:] {
+		if len(m.g.Genes) <= 40 {
+			kept = append(kept, m)
+		}
+	}
+	l.pool = kept
 	l.pop.VerifClearInnovations()
 	l.emit(map[string]interface{}{"ev": "gen", "reglen": len(l.pop.VerifInnovationsUnsafe())})
 }
